@@ -29,6 +29,9 @@ KNOWN_TEXT = {
                "(malformed import path that is referenced)",
     "F-C02-5": "h: list.FlattenN([list.Sort(h, list.Ascending), 1], 0): self reference through list.Sort recurses "
                "without bound in the evaluator (fatal stack overflow)",
+    "F-C02-6": "list.Range has no bound on the number of elements (list.Range(0, 1e10, 1) runs until the CPU limit / memory cap)",
+    "F-C02-7": "f: {e: strings.ToUpper(and([_, f]))}: rendering the error text recurses without bound in "
+               "internal/core/debug (shortError -> writeErr -> formatter.String -> compactNode), fatal stack overflow",
 }
 
 
